@@ -672,6 +672,11 @@ def check_sequences(ctx, res):
     from props.C08 import C08Group
     counts = {}
     with C08Group(ctx):
+        fails = []
+        sq.run_scripted(ctx, fails, counts)
+        res.case({"sequence": "scripted"}, nontrivial=True)
+        for sig, what in fails:
+            res.failures.append(Failure("C01:" + sig, what, {"sequence": "scripted"}))
         for i in range(ctx.n(10, 60)):
             seed = ctx.rng.randrange(1 << 30)
             fails = []
@@ -754,6 +759,13 @@ def replay(ctx: Ctx, data):
     if data.get("quantized"):
         r = Result(); quantized_inplace(ctx, r)
         return r.failures[0] if r.failures else None
+    if data.get("sequence") == "scripted":
+        from props import seq_common as sq
+        from props.C08 import C08Group
+        fails = []
+        with C08Group(ctx):
+            sq.run_scripted(ctx, fails, {})
+        return Failure("C01:" + fails[0][0], fails[0][1], data) if fails else None
     if "sequence_seed" in data:
         from props import seq_common as sq
         from props.C08 import C08Group
